@@ -1,8 +1,9 @@
 (* DiagonalSubsection::fill_args_at_p (SubvarAccess::All), transcribed in Model/FastOpsNav.v as a
    backward walk over the links with early termination on an "unfilled" counter, builds exactly the
-   cursor a scan yields — for every string in which every stored operator acts on at least one
-   variable (with only zero-variable operators stored the code's `unfilled == 0` shortcut leaves
-   last_p unset although operators precede p). *)
+   cursor a scan yields — for every well-formed string.  (Before fix 5d805dc the `unfilled == 0`
+   shortcut returned last_p = None although operators preceded p, whenever no selected variable carried
+   operators; the statement then needed the side condition that every stored operator acts on at least
+   one variable, and was refuted without it.) *)
 From Coq Require Import List Bool Arith Lia Sorted.
 From QmcV Require Import Model.Sse Model.Nav Model.FastOps Model.FastOpsNav
      Proofs.NavProofs Proofs.ChainLemmas Proofs.FastOpsLemmas Proofs.FastOpsProofs Proofs.FastOpsNavProofs.
@@ -357,21 +358,6 @@ Lemma atp_fold' o vps L u L' u' : nth_error sl p = Some (Some o) ->
   Inv p L u -> fold_left atp_step vps (L, u) = (L', u') -> Inv p L' u'.
 Proof. intros Ho Hv HI E. pose proof (atp_fold o Ho vps L u Hv HI) as HF. rewrite E in HF. exact HF. Qed.
 
-Hypothesis Hnonempty : forall q o, nth_error sl q = Some (Some o) -> o_vars o <> [].
-
-Lemma no_vars_no_ops : missing (repeat None nv) = 0 -> prev_p sl p = None.
-Proof.
-  intros Hm. destruct (prev_p sl p) as [q0|] eqn:E; [|reflexivity]. exfalso.
-  destruct (prev_p_lt p q0 E) as [_ [o Ho]].
-  destruct (o_vars o) as [|v vs] eqn:Ev; [exact (Hnonempty q0 o Ho Ev)|].
-  assert (Hv : v < nv) by (destruct (Hwf q0 o Ho) as (_ & Hlt & _); apply Hlt; rewrite Ev; now left).
-  assert (Hh : has v = true) by (eapply has_of_op; [exact Ho|rewrite Ev; now left]).
-  unfold missing in Hm.
-  assert (Hin : In v (filter (fun v0 => has v0 && isnone (nth v0 (repeat None nv) (@None prel))) (seq 0 nv))).
-  { apply filter_In. split; [apply in_seq; lia|]. now rewrite Hh, nth_repeat. }
-  destruct (filter _ (seq 0 nv)); [contradiction|discriminate].
-Qed.
-
 Lemma nearest_below_is_prev : forall q, nearest_below (build nv nb sl) q = prev_p sl (S q).
 Proof.
   induction q as [|q IH]; cbn [nearest_below].
@@ -413,10 +399,14 @@ Proof.
   assert (Hargs : fa_args a0 = mkArgs None (repeat None nv)).
   { subst a0. unfold empty_args. cbn [fa_args]. now rewrite build_var_ends_length. }
   destruct (Nat.eqb_spec (fa_unfilled a0) 0) as [Hz|Hnz].
-  - (* no variable has operators: nothing precedes p *)
-    rewrite Hargs. unfold scan_cursor. rewrite Hu0 in Hz.
-    f_equal; [symmetry; now apply no_vars_no_ops|].
-    apply (inv_result_unfilled p). rewrite <- Hz. apply inv_initial. lia.
+  - (* no variable has operators: the global predecessor is looked up directly *)
+    rewrite Hargs. cbn [a_last]. unfold scan_cursor. rewrite Hu0 in Hz.
+    f_equal.
+    + rewrite (match_pred p _ (fun p' => nearest_below (build nv nb sl) p')).
+      destruct (Nat.eqb_spec p 0) as [E0|En0].
+      * symmetry. apply (nav_p_eq false). cbn [is_nb dle idk]. unfold idk. intros b _. lia.
+      * rewrite nearest_below_is_prev. replace (S (pred p)) with p by lia. reflexivity.
+    + apply (inv_result_unfilled p). rewrite <- Hz. apply inv_initial. lia.
   - assert (HI0 : Inv p (repeat None nv) (fa_unfilled a0)) by (apply inv_initial; rewrite Hu0; lia).
     destruct (nth_error sl p) as [[o|]|] eqn:Ep.
     + (* an operator sits at p: start from its recorded predecessors *)
@@ -473,20 +463,15 @@ Qed.
 
 Theorem mutate_subsection_refines nv nb sl pstart decs :
   wf_slots nv nb sl -> Forall (wf_decision nv nb) decs ->
-  (forall q o, nth_error sl q = Some (Some o) -> o_vars o <> []) ->
   0 < length decs ->
   let sl1 := sl ++ repeat None (pstart + length decs - length sl) in
   mutate_subsection (build nv nb sl) pstart decs = build nv nb (apply_decs sl1 pstart decs).
 Proof.
-  intros Hwf Hdecs Hne Hpos sl1. unfold mutate_subsection.
+  intros Hwf Hdecs Hpos sl1. unfold mutate_subsection.
   rewrite resize_refines. fold sl1.
   assert (Hwf1 : wf_slots nv nb sl1) by (apply wf_slots_app_none; exact Hwf).
   assert (Hlen1 : pstart + length decs <= length sl1).
   { unfold sl1. rewrite app_length, repeat_length. lia. }
-  assert (Hne1 : forall q o, nth_error sl1 q = Some (Some o) -> o_vars o <> []).
-  { intros q o Hq. unfold sl1 in Hq. destruct (Nat.lt_ge_cases q (length sl)) as [Hlt|Hge].
-    - rewrite nth_error_app1 in Hq by exact Hlt. exact (Hne q o Hq).
-    - rewrite nth_error_app2 in Hq by exact Hge. apply nth_error_In, repeat_spec in Hq. discriminate. }
-  rewrite (fill_args_refines nv nb sl1 pstart Hwf1 ltac:(lia) Hne1).
+  rewrite (fill_args_refines nv nb sl1 pstart Hwf1 ltac:(lia)).
   rewrite sweep_refines by assumption. reflexivity.
 Qed.
